@@ -45,6 +45,8 @@ class StackStream(Stream):
             "upgrade": rng.random() < 0.2,
             "req": "foo" + rng.choice(["", "", ">=2.0", "<2.0", "==1.5", "!=3.0", ">=9"]),
         }
+        if rng.random() < 0.25:
+            case["only_binary"] = True        # the project is named under --only-binary: source *archives* are out, nothing else is
         if rng.random() < 0.4:
             # the solver asks one stack many times: earlier requests for the same project (other bounds) come first
             case["before"] = ["foo" + rng.choice([">=2.0", "<2.0", "==1.5", "!=3.0", ">=9", "==2.5", ""]) for _ in range(rng.choice([1, 1, 2]))]
@@ -111,12 +113,20 @@ class StackStream(Stream):
                 r2, _ = self._build(case, os.path.join(d, "alone%d" % i))
                 leaf = B.leaves(r2)[i]
                 try:
-                    dist, _ = leaf.get_dist(req)
+                    dist, _ = leaf.get_dist(req, allow_source_dist=not case.get("only_binary"))
                     alone.append(["ok", str(dist.version)])
                 except NoCandidateException:
                     alone.append(["nocand", None])
                 except Exception as ex:
                     alone.append(["raise", type(ex).__name__])
+            # what a prior solution / a source tree "can satisfy" is known to the harness: it wrote them (the answer of the
+            # code's own leaf is kept next to it; a difference is a finding of its own)
+            ns, nr = len(case["solutions"]), len(case["sources"])
+            code_alone = [list(a) for a in alone]
+            for i in range(min(len(alone), ns + nr)):
+                src = case["solutions"][i] if i < ns else case["sources"][i - ns]
+                can = src["has"] and req.specifier.contains(src["version"], prereleases=True) and not (i < ns and case["upgrade"])
+                alone[i] = ["ok", src["version"]] if can else ["nocand", None]
             # the stack, with a query log
             queried = []
             for i, leaf in enumerate(lv):
@@ -128,12 +138,12 @@ class StackStream(Stream):
                 leaf.get_candidates = wrapped
             for b in case.get("before", []):
                 try:
-                    repo.get_dist(parse_requirement(b))
+                    repo.get_dist(parse_requirement(b), allow_source_dist=not case.get("only_binary"))
                 except Exception:
                     pass
             del queried[:]
             try:
-                dist, _ = repo.get_dist(req)
+                dist, _ = repo.get_dist(req, allow_source_dist=not case.get("only_binary"))
                 origin = [i for i, l in enumerate(lv) if dist.origin is l]
                 ans = ["ok", str(dist.version), origin[0] if origin else None]
             except NoCandidateException:
@@ -141,7 +151,7 @@ class StackStream(Stream):
             except Exception as ex:
                 ans = ["raise", type(ex).__name__, None]
             http = [u for idx in idx_objs for u in idx.log]
-            return {"labels": labels, "alone": alone, "answer": ans, "queried": queried, "http": http}
+            return {"labels": labels, "alone": alone, "code_alone": code_alone, "answer": ans, "queried": queried, "http": http}
         finally:
             shutil.rmtree(d, ignore_errors=True)
 
@@ -213,6 +223,8 @@ class StackStream(Stream):
             fl.append("upgrade-exclusion")
         if case.get("before"):
             fl.append("earlier-requests-on-the-same-stack")
+        if case.get("only_binary"):
+            fl.append("project-marked-binary-only")
         if len(set(a[1] for a in r["alone"] if a[0] == "ok")) > 1:
             fl.append("different-versions-offered")
         return fl
@@ -235,6 +247,10 @@ class StackStream(Stream):
             seen = [l for l in r["labels"] if ("/" + prefix) in l]
             if seen != sorted(seen):
                 fails.append(("C04/group-order-differs", {"labels": r["labels"]}))
+        for i, (a, c) in enumerate(zip(r["alone"], r.get("code_alone", r["alone"]))):
+            if c[0] != "raise" and (a[0] != c[0] or (a[0] == "ok" and str(a[1]) != str(c[1]))):
+                fails.append(("C04/solution-or-source-tree-does-not-offer-what-it-holds", {"leaf": r["labels"][i], "holds": a, "answers": c,
+                                                                                             "only_binary": bool(case.get("only_binary"))}))
         oks = [i for i, a in enumerate(r["alone"]) if a[0] == "ok"]
         raises = [i for i, a in enumerate(r["alone"]) if a[0] == "raise"]
         if raises:
